@@ -160,6 +160,31 @@ func (x *Exec) hypothesesAndGoal(o *Oblig) ([]*Term, *Term) {
 	return out, goal
 }
 
+// heapFilter keeps the hypotheses that mention no element-heap symbol ("E:...") absent
+// from the goal and path condition.
+func (x *Exec) heapFilter(o *Oblig, hyps []*Term) []*Term {
+	gs := map[string]bool{}
+	seen := map[int]bool{}
+	termSyms(o.Goal, gs, seen)
+	termSyms(o.PC, gs, seen)
+	var out []*Term
+	for _, h := range hyps {
+		hs := map[string]bool{}
+		termSyms(h, hs, map[int]bool{})
+		ok := true
+		for s := range hs {
+			if strings.HasPrefix(s, "E:") && !gs[s] {
+				ok = false
+				break
+			}
+		}
+		if ok {
+			out = append(out, h)
+		}
+	}
+	return out
+}
+
 func termSyms(t *Term, into map[string]bool, seen map[int]bool) {
 	var st []*Term
 	st = append(st, t)
@@ -471,6 +496,7 @@ func SolveAll(units []*UnitResult, so solveOpts) {
 	files := make([]string, len(jobs))
 	lias := make([]string, len(jobs))
 	small := make([][]string, len(jobs))
+	smallLia := map[string]string{}
 	for i, j := range jobs {
 		hyps, goal := j.x.hypothesesAndGoal(j.o)
 		og := *j.o
@@ -493,6 +519,18 @@ func SolveAll(units []*UnitResult, so solveOpts) {
 			}
 		}
 		if !j.o.ExpectSat && len(hyps) > 12 {
+			// slice 0: drop hypotheses about element-heap contents the goal does not mention
+			// (byte-level facts are irrelevant to cursor/size arithmetic and vice versa)
+			if hf := j.x.heapFilter(&og, hyps); len(hf) < len(hyps) {
+				fs := filepath.Join(so.tmp, fmt.Sprintf("o%05d_relh.smt2", i))
+				if os.WriteFile(fs, []byte(j.x.scriptWith(&og, nil, hf)), 0o644) == nil {
+					small[i] = append(small[i], fs)
+				}
+				fl := filepath.Join(so.tmp, fmt.Sprintf("o%05d_relh_int.smt2", i))
+				if os.WriteFile(fl, []byte(j.x.scriptLIA(&og, hf)), 0o644) == nil {
+					smallLia[fs] = fl
+				}
+			}
 			prev := 0
 			for k, cfg := range [][2]int{{1, 6}, {2, 4}} {
 				rel := j.x.relevant(&og, hyps, cfg[0], cfg[1])
@@ -526,6 +564,9 @@ func SolveAll(units []*UnitResult, so solveOpts) {
 				}
 				for _, f := range small[i] {
 					os.Remove(f)
+					if l := smallLia[f]; l != "" {
+						os.Remove(l)
+					}
 				}
 				os.Remove(files[i])
 				if lias[i] != "" {
@@ -556,7 +597,7 @@ func SolveAll(units []*UnitResult, so solveOpts) {
 				for _, fs := range small[i] {
 					so1 := so
 					so1.timeoutS = 8
-					st, sv, secs, _, _ := solveOne(fs, so1, false)
+					st, sv, secs, _, _ := solveOne(fs, so1, false, smallLia[fs])
 					o.Seconds += secs
 					if st == "unsat" {
 						o.Status, o.Solver, o.Output = st, sv, ""
